@@ -133,6 +133,7 @@ def pairs():
         "plain->aliased": lambda: (P.Table("told"), P.Table("tnew", alias="an")),
         "schema->plain": lambda: (P.Table("told", schema="s1"), P.Table("tnew")),
         "plain->other-source": lambda: (P.Table("told"), P.Table("oth")),   # the new table IS the statement's other table
+        "none->plain": lambda: (None, P.Table("tnew")),                     # fields without a table are given one (terms only)
     }
 
 
@@ -178,6 +179,8 @@ def run(tier: str) -> int:
             if d == "postgresql":
                 tmpl.update(pg)
             for sname, f in tmpl.items():
+                if pname == "none->plain":
+                    continue  # (a statement is built over a table; re-targeting its un-tabled fields is the term-level case)
                 if pname == "plain->other-source" and "foreign" not in sname:
                     continue  # (joining a table to itself is given an automatic alias at join time: rebuilt and replaced legitimately differ)
                 told, tnew = mk()
